@@ -27,11 +27,11 @@ def main():
         rc = mod.run(ctx)
         if rc is None:
             rc = 0
-        if tier == 'thorough' and not args.no_selftest and rc == 0 and hasattr(mod, 'selftest'):
+        if tier == 'thorough' and not args.no_selftest and rc == 0:
             from sa.selftest import harness
             st = harness.run(args.property, mod, args.repo)
             if st:
-                print('ANALYSIS-ERROR selftest: %s' % st)
+                print('ANALYSIS-ERROR selftest: %s' % st.replace('VIOLATION', 'report'))
                 return 2
         return rc
     except (report.AnalysisError, FactError) as e:
